@@ -1,1 +1,11 @@
 import Lmd.Props.C19
+#print axioms Lmd.C19.coerce_valJson_roundtrip
+#print axioms Lmd.C19.valJson_shape
+#print axioms Lmd.C19.number_roundtrip
+#print axioms Lmd.C19.row_roundtrip
+#print axioms Lmd.C19.exported_eq
+#print axioms Lmd.C19.synced_row_roundtrip
+#print axioms Lmd.C19.synced_table_roundtrip
+#print axioms Lmd.C19.row_roundtrip_setCell
+#print axioms Lmd.C19.lc_depends_on_base
+#print axioms Lmd.C19.lc_recomputed
